@@ -104,6 +104,12 @@ def report_once(ctx, key, what, replay):
     ctx.violation(key, what, replay)
 
 
+def san_summary(err):
+    """the informative lines of a sanitizer report"""
+    keep = [l.strip() for l in err.splitlines() if "ERROR:" in l or "SUMMARY:" in l or "runtime error" in l]
+    return " | ".join(keep)[:600] or err[-400:]
+
+
 class HarnessCrash(Exception):
     def __init__(self, k, rc, err, line):
         super().__init__("harness aborted rc=%s at line %d" % (rc, k))
@@ -376,8 +382,8 @@ def part_a(ctx, env, cases):
     try:
         real = env.run_harness(hl)
     except HarnessCrash as e:
-        ctx.violation("crash:" + vlib.sha(e.line)[:12], "fstree_sort_files harness aborted (rc=%s): %s" % (e.rc, e.err[-600:]),
-                      {"harness_line": e.line, "stderr": e.err})
+        ctx.violation("crash:" + vlib.sha(e.line)[:12], "fstree_sort_files harness aborted (rc=%s): %s" % (e.rc, san_summary(e.err)),
+                      {"kind": "sort", "harness_line": e.line, "stderr": e.err})
         return {"sort_cases": 0}
     if len(real) != len(cases):
         raise vlib.CheckFailure("sort harness: %d answers for %d cases" % (len(real), len(cases)))
@@ -525,8 +531,14 @@ def part_c(ctx, env, cases):
     try:
         out = env.run_harness(hl)
     except HarnessCrash as e:
-        ctx.violation("export-crash:" + vlib.sha(e.line)[:12], "the dir writer's export table code aborted (rc=%s) on %s…: %s" % (
-            e.rc, e.line[:120], e.err[-800:]), {"kind": "export", "harness_line": e.line, "stderr": e.err})
+        # the harness answers line by line, so the first unanswered line is the one that crashed
+        culprit = next((c for c in cases if export_lines(c) == e.line), None)
+        replay = {"kind": "export", "harness_line": e.line[:2000], "stderr": e.err}
+        if culprit is not None:
+            replay["case"] = {k: culprit[k] for k in ("id", "pairs", "off", "comp", "order", "band")}
+        ctx.violation("export-crash:" + vlib.sha(e.line)[:12], "the dir writer's export table code aborted (rc=%s) on %s… (%s): %s" % (
+            e.rc, e.line[:60], "%d calls, %s order" % (len(culprit["pairs"]), culprit["order"]) if culprit else "not an exptbl line",
+            san_summary(e.err)), replay)
         return stats
     for c in cases:
         c["table"] = {}
@@ -765,6 +777,11 @@ def gen_other_nodes(rng, case):
             if lp not in used:
                 used.add(lp)
                 others.append(("h", lp, tgt))
+                # … and a directive of its own in the sort file: the flags of a file with several names must arrive too
+                if case["tool"] == "packdir" and plain_ok(tgt) and b'"' not in tgt and rng.random() < 0.8:
+                    fl = rng.choice([F_DC, F_NS, F_DF, F_DD, F_DC | F_NS])
+                    case["sortfile"] = str(rng.choice([-6, 3, -2147483650])).encode() + b" " + gen_flags_token(rng, fl) + b" " + tgt + b"\n" \
+                        + (case.get("sortfile") or b"")
     # files delivered by a `glob` line instead of `file` lines: the regular files directly inside one directory
     if case["tool"] == "gensquashfs" and rng.random() < 0.5:
         d = rng.choice([b"bin", b"lib"])
@@ -1109,7 +1126,7 @@ def run_pack_case(env, case, scratch):
     try:
         rc, err, img = build_image(env, case, d)
         if rc != 0:
-            res["problems"].append(("tool-failed", "%s exited %s: %s" % (case["tool"], rc, str(err)[-400:])))
+            res["problems"].append(("tool-failed", "%s exited %s: %s" % (case["tool"], rc, san_summary(str(err)))))
             return res
         try:
             real = decode_image(env, case, img)
@@ -1689,6 +1706,13 @@ def replay(ctx, path):
         if same and rr.startswith("ok"):
             same = not sort_clause_failures(init, parse_sorted(rr), per[0], bits[0])
         return 0 if same and frame == "ok" else 1
+    if rp.get("kind") == "export" and "case" not in rp:
+        try:
+            print(env.run_harness([rp["harness_line"]])[0][:300])
+            return 0
+        except HarnessCrash as e:
+            print("harness aborted rc=%s: %s" % (e.rc, san_summary(e.err)))
+            return 1
     if rp.get("kind") == "export":
         c = dict(rp["case"])
         c["pairs"] = [tuple(x) for x in c["pairs"]]
